@@ -31,11 +31,19 @@ fn setup(case: &Value) -> Setup {
     xs.intercept_stdout(true);
     xs.intercept_output(true).unwrap();
     let base = xs.verif_dump().heap.len();
+    // what was submitted before the limits are set
+    let prior: String = case["prior"].as_array().map(|a| a.iter().map(|x| x.as_str().unwrap_or("")).collect::<Vec<_>>().join(" ")).unwrap_or_default();
+    if !prior.is_empty() {
+        let _ = xs.eval(&prior);
+        xs.read_stdout();
+    }
     let n = lim(&case["n"]).unwrap_or(120);
-    let s = lim(&case["s"]);
-    let h = lim(&case["h"]).map(|x| x + base);
-    xs.set_stack_limit(s).unwrap();
-    xs.set_heap_limit(h).unwrap();
+    // a limit set below the current size bounds growth, it cannot shrink what is already there
+    let d0 = xs.verif_dump();
+    let s = lim(&case["s"]).map(|x| x.max(d0.data_stack.len()));
+    let h = lim(&case["h"]).map(|x| (x + base).max(d0.heap.len()));
+    xs.set_stack_limit(lim(&case["s"])).unwrap();
+    xs.set_heap_limit(lim(&case["h"]).map(|x| x + base)).unwrap();
     xs.set_insn_limit(Some(n)).unwrap();
     Setup { xs, base, n, s, h }
 }
@@ -65,7 +73,14 @@ pub fn judge(case: &Value) -> Vec<Value> {
     {
         let mut st = setup(case);
         let mut why: Vec<String> = vec![];
-        let out = guarded(|| st.xs.compile(&src).and_then(|_| st.xs.run()));
+        let mut compiled = true;
+        let out = guarded(|| {
+            if let Err(e) = st.xs.compile(&src) {
+                compiled = false;
+                return Err(e);
+            }
+            st.xs.run()
+        });
         match out {
             Outcome::Panic(_) => {} // C08's business
             Outcome::Done(r) => {
@@ -85,7 +100,8 @@ pub fn judge(case: &Value) -> Vec<Value> {
                     (Ok(()), other) => why.push(format!("expected error {}, got success", other)),
                     (Err(e), "none") => why.push(format!("expected success within the limits, got {} ({})", err_class(e), e)),
                     (Err(e), "Limit") => {
-                        if err_class(e) == "Limit" && case["which"] == "insn" && st.n < 120 {
+                        // (a limit hit while a meta block runs at compile time rejects the source: nothing of it remains)
+                        if compiled && err_class(e) == "Limit" && case["which"] == "insn" && st.n < 120 {
                             // the state must be one the unlimited run passes through within N instructions
                             let ds = whole_stack(&st.xs);
                             let heap = user_heap(&st.xs, st.base);
